@@ -83,6 +83,7 @@ def run(ctx, out):
     d0 = ctx.work.fresh("c07")
     nfiles = 1500 if quick else 6000
     bound_ms = 40000 if quick else 120000
+    bound = [bound_ms]
     out.rule = ("(a) CLI: a tree of %d small files in sub-directories preceded by 6 FIFOs, a socket and 4 symlinks; fault plans at "
                 "walker / dispatcher / worker / finalisation calls (single, every-occurrence and two-fault plans), both drivers, "
                 "workers 1/4/64; each run must end within %d s of wall clock and, for reported-class faults, with a non-zero "
@@ -109,7 +110,7 @@ def run(ctx, out):
         os.symlink(os.path.join(src_master, "src"), os.path.join(d, "srclink"))   # shared read-only source
         argv = [ctx.bins["xcp"], "-r", "--driver", driver, "-w", str(w), os.path.join(src_master, "src"), "dst"]
         rr = [(a, p1, p2, s, n, (path if path != "/src" else os.path.join(src_master, "src"))) for (a, p1, p2, s, n, path) in rules]
-        r = xcp.run_supervised(sup, argv, d, d0, rules=rr, tag="f", timeout_ms=bound_ms)
+        r = xcp.run_supervised(sup, argv, d, d0, rules=rr, tag="f", timeout_ms=bound[0])
         opened_special = [e["p1"] for e in r.trace if e["sys"] in ("openat", "open") and
                           ("/0fifo" in e["p1"] or "/0sock" in e["p1"]) and "/src/" in e["p1"]]
         fired = any(e.get("inj") for e in r.trace)
@@ -120,6 +121,15 @@ def run(ctx, out):
 
     with concurrent.futures.ThreadPoolExecutor(max_workers=6) as ex:
         results = list(ex.map(lambda t: one(t[1], t[0]), list(enumerate(jobs))))
+    # a run that exceeded the bound while five others were being traced next to it is repeated ALONE with twice
+    # the bound before it counts as a hang (the bound is a wall-clock proxy for non-termination)
+    for i, res in enumerate(results):
+        if res["timeout"] or res["exit"] == 124:
+            bound[0] = 2 * bound_ms
+            results[i] = one(res["job"], 100000 + i)
+            bound[0] = bound_ms
+            results[i]["retried"] = True
+            out.count("timeouts_retried_alone")
     for res in results:
         (label, rules, expect, driver, w) = res["job"]
         out.case(("cli", label, driver, w), nontrivial=bool(rules))
@@ -153,7 +163,7 @@ def run(ctx, out):
         d = os.path.join(d0, "l%d" % idx)
         os.makedirs(d)
         argv = [ctx.bins["probe"], "copy", driver, str(w), "65536", upd, "--reflink=never", "--", os.path.join(small, "src"), "dst"]
-        r = xcp.run_supervised(sup, argv, d, d0, rules=rules, tag="l", timeout_ms=bound_ms, fd9=os.path.join(d, "fd9.log"))
+        r = xcp.run_supervised(sup, argv, d, d0, rules=rules, tag="l", timeout_ms=bound[0], fd9=os.path.join(d, "fd9.log"))
         res = dict(job=job, exit=r.exit, timeout=bool(r.meta.get("timeout")), has_ret=("RET " in r.stdout),
                    closed=("CLOSED" in r.stdout), argv=argv[1:], rules=rules, stderr=r.stderr[-200:])
         shutil.rmtree(d, ignore_errors=True)
@@ -161,6 +171,12 @@ def run(ctx, out):
 
     with concurrent.futures.ThreadPoolExecutor(max_workers=6) as ex:
         lres = list(ex.map(lambda t: lib(t[1], t[0]), list(enumerate(lib_jobs))))
+    for i, res in enumerate(lres):
+        if res["timeout"] or res["exit"] == 124:
+            bound[0] = 2 * bound_ms
+            lres[i] = lib(res["job"], 100000 + i)
+            bound[0] = bound_ms
+            out.count("timeouts_retried_alone")
     for res in lres:
         (upd, driver, label, rules, w) = res["job"]
         out.case(("lib", upd, driver, label, w), nontrivial=bool(rules))
